@@ -1,10 +1,37 @@
-import Driver.Util
+import Driver.Stor
 
-/-! Placeholder: the line-protocol driver of domain C02 is not written yet. -/
+/-! Driver for domain C02 (crash images of write histories): see `Driver/Stor.lean`. -/
 namespace Driver.C02
+open Hv.Storage Driver.Stor
 
-def run (_args : List String) : IO UInt32 := do
-  IO.eprintln "drv: domain C02 has no driver yet"
-  return 2
+/-- Spec check on the model's own prediction for a crash image: the recovered entries are a
+    prefix of what was written and contain everything that was durable; the append after the
+    recovery is readable. -/
+def flagImg (s : DS) (ev : Eval) (i _j _k : Nat) : String :=
+  let syn := s.syncedAt i
+  let okC := isPrefixOf syn ev.cEnts && isPrefixOf ev.cEnts s.wr
+  let f1 := if okC then "" else
+    (if ev.lText == "err-load" then "\t#F:C02-torn-payload-load-error" else "\t#F:C02-crash-loses-synced-data")
+  let okA := sameIndex ev.aState (Index.put ev.cState 9000 77)
+  let f2 := if okA then "" else
+    (if ev.lText == "err-open" then "\t#F:C02-torn-create-bricks-swamp" else "\t#F:C02-append-after-torn-tail-strands")
+  f1 ++ f2
+
+def hooks : Hooks where
+  expectAt := fun s _ _ => s.spec
+  flagImg := flagImg
+  flagLoad := fun _ _ => ""
+
+def cfgOfArgs (kv : List (String × String)) : Cfg :=
+  { r := ⟨boolArg kv "shortHeaderIsEOF", boolArg kv "tornDataIsEOF", false⟩,
+    syncFsyncs := boolArg kv "syncFsyncs", closeFsyncs := boolArg kv "closeFsyncs",
+    truncatesTornTail := boolArg kv "truncatesTornTail",
+    loadCleansTemp := true, rmTempLocked := true, rmTempFromIndex := true, rmTempCompactor := true }
+
+def run (args : List String) : IO UInt32 := do
+  let kv := parseArgs args
+  let ticks := boolArg kv "syncFsyncs" && boolArg kv "handlerSyncsAfterWrite" && boolArg kv "chronSyncForwards"
+  lineLoop (step hooks) { cfg := cfgOfArgs kv, tickSyncs := ticks }
+  return 0
 
 end Driver.C02
